@@ -5,7 +5,9 @@ import Tbx.Spec.Reach
 Driver for C15 (BFS / DFS).
 
 ops:
-  G <bfs|dfs> <n> <m> u0 v0 u1 v1 …     edges in StaticGraph (CSR) order: sorted by source; edge id = position
+  G <bfs|dfs> <n> <m> u0 v0 u1 v1 …     edges in StaticGraph (CSR) order: sorted by source; edge id = position;
+                                         a case starts with a G line; a further G line switches graph / algorithm
+                                         and drops all objects (run numbering continues)
   new <obj> <srcs> <tgts>                `BFS::new(srcs, tgts, n)`            lists: a,b,c or `-` (empty)
   run <obj> <filter>                     `run_with_filter` skipping the listed edge ids; `-` = `run()`
   q <srcs> <tgts> <filter>               fresh object + one run
@@ -23,6 +25,7 @@ namespace Tbx.Drv.C15
 open Tbx Tbx.Drv
 
 inductive Op where
+  | graph (alg : String) (n : Nat) (es : List (Nat × Nat))
   | new (id : String) (srcs tgts : List Nat)
   | run (id : String) (filt : Option (List Nat))
   | q (srcs tgts : List Nat) (filt : Option (List Nat))
@@ -98,40 +101,55 @@ structure Stats where
   epfilt : Nat := 0      -- edge paths containing a FILTERED (parallel) edge: allowed by the property, counted
   explored : Nat := 0
 
+structure GState where
+  isBfs : Bool := true
+  alg : String := ""
+  n : Nat := 0
+  m : Nat := 0
+  adj : Array (List (Nat × Nat)) := #[]
+
+def GState.g (gs : GState) : Search.Graph := fun u => gs.adj.getD u []
+def GState.pop (gs : GState) : List Nat → Option (Nat × List Nat) := if gs.isBfs then Search.popFront else Search.popBack
+
 def handle (c : Case) : CaseOut := Id.run do
   -- parse
-  let mut alg := ""
-  let mut n := 0
-  let mut es : List (Nat × Nat) := []
   let mut ops : Array Op := #[]
-  let mut haveG := false
+  let mut nodes := 0
+  let mut edgesTotal := 0
   for l in c.ops do
     match words l with
     | "G" :: a :: ns :: ms :: rest =>
-      alg := a; n := parseNat! ns; haveG := true
-      es := pairs (rest.map parseNat!)
+      let n := parseNat! ns
+      let es := pairs (rest.map parseNat!)
       if es.length != parseNat! ms then return { model := #[], verdict := .skip "edge count does not match" }
+      if a != "bfs" && a != "dfs" then return { model := #[], verdict := .skip "unknown algorithm" }
+      -- domain of the property / of StaticGraph
+      if !sortedBySource es then return { model := #[], verdict := .skip "edges not sorted by source (not a CSR order)" }
+      let maxId := es.foldl (fun m (u, v) => Nat.max m (Nat.max u v)) 0
+      if n != maxId + 1 then return { model := #[], verdict := .skip "n differs from StaticGraph::number_of_nodes" }
+      nodes := nodes + n; edgesTotal := edgesTotal + es.length
+      ops := ops.push (.graph a n es)
     | _ => match parseOp l with
       | some o => ops := ops.push o
       | none => return { model := #[], verdict := .skip s!"unparsable op '{l}'" }
-  if !haveG then return { model := #[], verdict := .skip "no graph" }
-  if alg != "bfs" && alg != "dfs" then return { model := #[], verdict := .skip "unknown algorithm" }
-  let isBfs := alg == "bfs"
-  let pop := if isBfs then Search.popFront else Search.popBack
-  -- domain of the property / of StaticGraph
-  if !sortedBySource es then return { model := #[], verdict := .skip "edges not sorted by source (not a CSR order)" }
-  let maxId := es.foldl (fun m (u, v) => Nat.max m (Nat.max u v)) 0
-  if n != maxId + 1 then return { model := #[], verdict := .skip "n differs from StaticGraph::number_of_nodes" }
-  let adj := mkAdj n es
-  let g : Search.Graph := fun u => adj.getD u []
-  let m := es.length
+  match ops[0]? with
+  | some (.graph ..) => pure ()
+  | _ => return { model := #[], verdict := .skip "case does not start with a graph" }
   -- ---------------- model run
   let mut out : Array String := #[]
   let mut objs : List Obj := []
   let mut k := 0
   let mut modelBad : Option String := none
+  let mut gs : GState := {}
   for o in ops do
+    let g := gs.g
+    let n := gs.n
+    let pop := gs.pop
+    let isBfs := gs.isBfs
     match o with
+    | .graph a n' es =>
+      gs := { isBfs := a == "bfs", alg := a, n := n', m := es.length, adj := mkAdj n' es }
+      objs := []
     | .new id srcs tgts =>
       match Search.new srcs tgts n with
       | some sr => objs := { id := id, sr := sr, srcs := srcs, tgts := tgts, runs := 0 } :: objs.filter (·.id != id)
@@ -167,10 +185,18 @@ def handle (c : Case) : CaseOut := Id.run do
   let mut jobs : List (String × List Nat × List Nat × Nat) := []   -- id, srcs, tgts, runs so far
   let linesOf (pfx : String) : List String := c.impl.toList.filter (fun l => (l.startsWith (pfx ++ " ")))
   let mut j := 0
+  gs := {}
   for o in ops do
     if !(verdict matches .ok) then break
     let mut cur : Option (List Nat × List Nat × Option (List Nat) × Bool) := none
+    let g := gs.g
+    let n := gs.n
+    let isBfs := gs.isBfs
+    let alg := gs.alg
     match o with
+    | .graph a n' es =>
+      gs := { isBfs := a == "bfs", alg := a, n := n', m := es.length, adj := mkAdj n' es }
+      jobs := []
     | .new id srcs tgts =>
       if srcs.any (· ≥ n) || tgts.any (· ≥ n) then verdict := .skip "source or target out of range"
       else if srcs.any (tgts.contains ·) then verdict := .skip "sources and targets not disjoint"
@@ -264,6 +290,6 @@ def handle (c : Case) : CaseOut := Id.run do
                      ("reuse", toString stt.reuse), ("filtered", toString stt.filtered),
                      ("nontrivruns", toString stt.nontriv), ("hops", toString stt.hops),
                      ("maxhops", toString stt.maxhops), ("explored", toString stt.explored),
-                     ("epfiltered", toString stt.epfilt), ("nodes", toString n), ("edges", toString m)] }
+                     ("epfiltered", toString stt.epfilt), ("nodes", toString nodes), ("edges", toString edgesTotal)] }
 
 end Tbx.Drv.C15
